@@ -83,6 +83,7 @@ FIXED = [
  ("C20", "f24e2a3", "`-d name=<integer>` was converted with atoi(): values beyond 32 bits were truncated (`-d x=4294967396` defined 100) for yara, yarac and `yara -C -d` alike"),
  ("C18", "23bf65b", "directory scans skipped every symbolic link whose target starts with `..` (two-byte readlink buffer), although the same path scanned as a single file follows the link"),
  ("C18", "2ace7fc", "warnings and console.log lines were printed outside the output lock: with several threads they landed inside another thread's rule line, between it and its string-match lines, and inside `error scanning <file>: <reason>` messages"),
+ ("C16", "edd6bde", "yr_parser_emit_pushes_for_strings ignored a failed emit (relocation-node allocation or code-buffer growth) while compiling `N of ($a*)` / `them`: compilation reported success, the saved rules carried a raw heap address"),
  ("C18", "cli-culprit-fix", "yara CLI printed `string \"$x\" in rule \"r\" caused could not open file` for an unreadable file after an earlier file on the same thread had hit a limit"),
 ]
 
